@@ -384,12 +384,16 @@ nni_aio_start(nni_aio *aio, nni_aio_cancel_fn cancel, void *data)
 	// cases and doing this here avoids nesting the locks.
 	nni_task_prep(&aio->a_task);
 
+	// An absolute expiry (nni_aio_set_expire) is good for one operation:
+	// where the operation ends here, without nni_aio_finish, it is
+	// forgotten just as nni_aio_finish forgets it.
 	nni_mtx_lock(&eq->eq_mtx);
 	NNI_ASSERT(!aio->a_stopped);
 	if (aio->a_stop || eq->eq_stop) {
 		aio->a_stop      = true;
 		aio->a_sleep     = false;
 		aio->a_expire_ok = false;
+		aio->a_use_expire = false;
 		aio->a_count     = 0;
 		aio->a_result    = NNG_ESTOPPED;
 		aio->a_stopped   = true;
@@ -401,6 +405,7 @@ nni_aio_start(nni_aio *aio, nni_aio_cancel_fn cancel, void *data)
 		aio->a_sleep     = false;
 		aio->a_abort     = false;
 		aio->a_expire_ok = false;
+		aio->a_use_expire = false;
 		aio->a_count     = 0;
 		NNI_ASSERT(aio->a_result != NNG_OK);
 		nni_mtx_unlock(&eq->eq_mtx);
@@ -412,6 +417,7 @@ nni_aio_start(nni_aio *aio, nni_aio_cancel_fn cancel, void *data)
 		aio->a_sleep     = false;
 		aio->a_result    = aio->a_expire_ok ? NNG_OK : NNG_ETIMEDOUT;
 		aio->a_expire_ok = false;
+		aio->a_use_expire = false;
 		aio->a_count     = 0;
 		nni_mtx_unlock(&eq->eq_mtx);
 		nni_task_dispatch(&aio->a_task);
